@@ -676,7 +676,11 @@ class Run:
     def wire_model(self, cfg, expect="ok", note=""):
         return self.model("MCWire.tla", cfg, expect=expect, env={"VERIF_VALUES": self.wm_values()}, note=note)
 
-    def behaviour_replay(self, cfg, sample=None, note=""):
+    def behaviour_replay(self, cfg, sample=None, note="", mode="clauses"):
+        """direction A for the WireMachine model.  TLC exports every behaviour; it is executed on the real types.
+        mode "clauses": the recorded events are judged by the trace specification with THIS property's clauses (so that a defect
+        of another property in the same bytes is not blamed on this one);  mode "equal": after every step the real observation
+        must equal the model's (C02: the model's bytes are the pinned rendering)."""
         import random
         vals = self.wm_values()
         r = self.model("MCWire.tla", cfg, env={"VERIF_VALUES": vals}, note="behaviour export for direction A " + note)
@@ -688,31 +692,69 @@ class Run:
             random.Random(self.seed).shuffle(behs)
             behs = behs[:sample]
         vd = self.build()
-        inp = os.path.join(self.scratch, "beh-%s.ndjson" % cfg)
-        open(inp, "w").write("\n".join(behs) + "\n")
         t0 = time.time()
-        p = subprocess.run([vd, "replay", "-values", vals, "-in", inp, "-out", inp + ".res"], capture_output=True, text=True, timeout=3600,
-                           env=dict(os.environ, VERIF_SCHEMA=SCHEMA))
-        if p.returncode != 0:
-            raise Broken("replay failed: " + p.stderr[-1500:])
-        results = [json.loads(l) for l in open(inp + ".res")]
-        bad = [x for x in results if x["verdict"] != "ok"]
         steps = sum(len(json.loads(b)) for b in behs)
-        self.cov["replay_runs"].append({"model": "MCWire.tla/" + cfg, "behaviours_exported": total, "behaviours_replayed": len(results),
-                                        "steps_compared": steps, "mismatches": len(bad), "wall_s": round(time.time() - t0, 1)})
-        self.cov["traces_validated_against_impl"] += len(results)
+        if mode == "equal":
+            inp = os.path.join(self.scratch, "beh-%s.ndjson" % cfg)
+            open(inp, "w").write("\n".join(behs) + "\n")
+            p = subprocess.run([vd, "replay", "-values", vals, "-in", inp, "-out", inp + ".res"], capture_output=True, text=True, timeout=3600,
+                               env=dict(os.environ, VERIF_SCHEMA=SCHEMA))
+            if p.returncode != 0:
+                raise Broken("replay failed: " + p.stderr[-1500:])
+            results = [json.loads(l) for l in open(inp + ".res")]
+            bad = [x for x in results if x["verdict"] != "ok"]
+            for x in bad[:5]:
+                if len(self.violations) < 5:
+                    rp = self.write_replay({"kind": "behaviour", "why": x["why"], "step": x["step"], "behaviour": x["behaviour"],
+                                            "values": [json.loads(l) for l in open(vals)]})
+                    self.violations.append({"what": "model behaviour, step %d: %s" % (x["step"], x["why"]), "replay": rp})
+            nbad = len(bad)
+        else:
+            msgs = [json.loads(l) for l in open(vals)]
+            hp = os.path.join(self.scratch, "hist-beh-%s.ndjson" % cfg)
+            with open(hp, "w") as f:
+                for b in behs:
+                    st = json.loads(b)
+                    used = sorted({x["m"] for x in st if "m" in x})
+                    ops = [{"op": "new", "o": "m%d" % m, "v": msgs[m - 1]["v"]} for m in used]
+                    for x in st:
+                        if x["op"] == "stale":
+                            ops.append({"op": "new", "o": "m%d" % x["m"], "v": x["vpost"], "tag": "stale-fields"})
+                        elif x["op"] == "encode":
+                            ops.append({"op": "encode", "b": "b", "o": "m%d" % x["m"], "tag": "model-behaviour"})
+                        elif x["op"] == "decode":
+                            ops.append({"op": "decode", "b": "b", "o": "r", "t": x["t"], "fresh": True, "tag": "model-behaviour"})
+                        elif x["op"] == "next":
+                            ops.append({"op": "next", "b": "b", "k": x["k"]})
+                        elif x["op"] == "reset":
+                            ops.append({"op": "reset", "b": "b"})
+                        elif x["op"] == "write":
+                            ops.append({"op": "write", "b": "b", "bytes": x["bytes"]})
+                        elif x["op"] in ("regremove", "regrestore"):
+                            ops.append({"op": x["op"], "alg": x["alg"]})
+                    for a in sorted({x["alg"] for x in st if x["op"] == "regremove"}):
+                        ops.append({"op": "regrestore", "alg": a})
+                    f.write(json.dumps(ops) + "\n")
+            path, stt = self.child_trace(hp, "model-behaviours")
+            before = len(self.violations)
+            res = validate_trace(path, self.prop, self.scratch)
+            if res["nchk"] != stt["events"]:
+                raise Broken("TLC validated %d events, the replay wrote %d" % (res["nchk"], stt["events"]))
+            self.cov["states"] += res["distinct"]
+            self.cov["transitions"] += res["generated"]
+            self._classify(res["bad"], path, "model-behaviours")
+            nbad = len([b for b in res["bad"] if b["clause"].split(".")[0] == self.prop])
+            os.remove(path)
+        self.cov["replay_runs"].append({"model": "MCWire.tla/" + cfg, "mode": mode, "behaviours_exported": total, "behaviours_replayed": len(behs),
+                                        "steps": steps, "rejected_or_mismatching": nbad, "wall_s": round(time.time() - t0, 1)})
+        self.cov["traces_validated_against_impl"] += len(behs)
         self.cov["evaluations"] += steps
         self.cov["distinct_nontrivial"] += len(set(behs))
         if len(self.cov["samples"]) < 4:
             self.cov["samples"].append({"behaviour": [compact_event(x) for x in json.loads(behs[0])]})
-        log("  replay %-24s %6d of %d behaviours (%d steps) executed on the real types: mismatches=%d (%.1fs)" %
-            (cfg, len(results), total, steps, len(bad), time.time() - t0))
-        for x in bad[:5]:
-            if len(self.violations) < 5:
-                rp = self.write_replay({"kind": "behaviour", "why": x["why"], "step": x["step"], "behaviour": x["behaviour"],
-                                        "values": [json.loads(l) for l in open(vals)]})
-                self.violations.append({"what": "model behaviour, step %d: %s" % (x["step"], x["why"]), "replay": rp})
-        return len(bad)
+        log("  replay %-24s %6d of %d behaviours (%d steps) executed on the real types, judged by %s: rejected=%d (%.1fs)" %
+            (cfg, len(behs), total, steps, "equality with the model" if mode == "equal" else "this property's trace clauses", nbad, time.time() - t0))
+        return nbad
 
     # -- the PrimMachine design model and its cases (direction A for C03/C13/C18) -----------------
     def prim_model_replay(self):
